@@ -26,6 +26,22 @@ def d_pop(ex, st, pos, kw, node, star, dstar):
     return outs
 
 
+def d_setdefault(ex, st, pos, kw, node, star, dstar):
+    """d.setdefault(k, default): the stored value if k is present, else default is stored under k and returned"""
+    d, k = pos[0], pos[1]; dflt = pos[2] if len(pos) > 2 else NONE; outs = []
+    sH, sM = ex.fork(st, st.dhas(d, k))
+    if sH is not None:
+        outs.append((sH, ('val', sH.dget(d, k))))
+    if sM is not None:
+        sM.dset(d, k, dflt); outs.append((sM, ('val', dflt)))
+    return outs
+
+
+def rnd_seed(ex, st, pos, kw, node, star, dstar):
+    """Random.seed(a): the stream is from now on the one determined by a (ghost field `seed` of the generator object)"""
+    st.wr(pos[0], 'seed', pos[1] if len(pos) > 1 else NONE); st.wr(pos[0], 'seeded_explicitly', B(True)); return val(st, NONE)
+
+
 def d_view(kind):
     def f(ex, st, pos, kw, node, star, dstar):
         o = st.alloc(kind); st.wr(o, 'of', pos[0]); return val(st, o)
@@ -109,7 +125,7 @@ def rnd_random(ex, st, pos, kw, node, star, dstar):
 
 def install(ex):
     M = {('dict', 'get'): d_get, ('dict', 'pop'): d_pop, ('dict', 'keys'): d_view('dictkeys'), ('dict', 'items'): d_view('dictitems'),
-         ('dict', 'values'): d_view('dictvalues'), ('dict', 'update'): d_update, ('list', 'append'): l_append, ('list', 'insert'): l_insert, ('list', 'extend'): l_extend,
+         ('dict', 'values'): d_view('dictvalues'), ('dict', 'update'): d_update, ('dict', 'setdefault'): d_setdefault, ('Random', 'seed'): rnd_seed, ('list', 'append'): l_append, ('list', 'insert'): l_insert, ('list', 'extend'): l_extend,
          ('Random', 'random'): rnd_random}
     for (c, m), f in M.items():
         engine.OBJMETHODS.add((c, m)); ex.lib['%s.%s' % (c, m)] = f
